@@ -72,6 +72,8 @@ impl CaoLangAllocator {
         let s = l.size() + l.align();
         let allocated = s + self.allocated.fetch_add(s, Ordering::Relaxed);
         if allocated > self.limit.load(Ordering::Relaxed) {
+            // the request is not granted, so it must not stay accounted for
+            self.allocated.fetch_sub(s, Ordering::Relaxed);
             #[cfg(feature = "verif-hooks")]
             crate::verif::with(|c| c.after_alloc(self, l, None));
             return Err(AllocError::OutOfMemory);
